@@ -214,7 +214,8 @@ def md_params(draw):
     return {"n": n, "d": d, "C": C, "S": S,
             # file-name prefixes: the usual ones, and legal ones that resemble other things ("tmp102" is not a tmp. file,
             # "duty50%%" is not a format string, "x.y" has a dot)
-            "prefix": draw(st.sampled_from(["metadata", "md", "x_y", "metadata", "md", "tmp102", "duty50%%", "x.y", "a-b"])),
+            # "station 7 " ends in a blank and " lead" begins with one (attribute strings must not be trimmed); ASCII only: the writer stores the prefix as an ASCII attribute and rejects anything else
+            "prefix": draw(st.sampled_from(["metadata", "md", "x_y", "metadata", "md", "tmp102", "duty50%%", "x.y", "a-b", "station 7 ", " lead"])),
             # how the integer parameters are handed to the writer: Python ints, integer-valued floats (10e6 is a usual way
             # of spelling a rate; accepted by the documented "must be an integer value" test), numpy integers
             "ptype": draw(st.sampled_from(["int", "int", "float", "np"]))}
